@@ -46,6 +46,20 @@ func Data(r *prng.R, family string, n int) []byte {
 		copy(b[6<<20+o:], m)
 		return b
 	}
+	if strings.HasPrefix(family, "thinrep:") {
+		// noise with k eight-byte repeats (1000 bytes back) spread evenly: data whose LZMA
+		// encoding is within a fraction of a per cent of its own size, on either side - the
+		// place where a writer decides between a compressed and an uncompressed chunk
+		k, _ := strconv.Atoi(family[len("thinrep:"):])
+		r.Bytes(b)
+		for j := 0; j < k; j++ {
+			pos := 1100 + j*(n-1200)/(k+1)
+			if pos+8 <= n && pos >= 1000 {
+				copy(b[pos:pos+8], b[pos-1000:pos-992])
+			}
+		}
+		return b
+	}
 	switch family {
 	case "empty":
 		return []byte{}
